@@ -26,6 +26,7 @@ LEVEL_TEXT = (
     "generate_mxlpy_code; the source is exec'd, create_model() called, and names/kinds, initial values, parameter "
     "values and (at 4 states x 2 times) derived values, fluxes and derivatives are compared with the original "
     "(rtol 1e-12; printed literals carry 15 digits). Untranslatable functions must make generation raise."
+    ' Also: every rebuilt model is generated and rebuilt a second time, several models are generated into ONE module file in one process (session family), and the patterns include helpers imported locally, names the generator uses itself, ignored parameters, repeated arguments and tuple displays with an untranslatable element.'
 )
 LEVEL_NOTE = "trusted: CPython exec of the generated module; the original model is the oracle"
 RULE = (
